@@ -106,6 +106,16 @@ func corruptionSweep(r *run.Runner, fn0 func(w *run.Worker, src string)) map[str
 		}
 	}
 	corpus := gen.Programs()
+	if !r.Thorough() {
+		// quick: the `let N = 7; <query>` programs repeat queries that are in the corpus without the let
+		kept := corpus[:0:0]
+		for _, p := range corpus {
+			if !gen.IsCoincidingLetProgram(p) {
+				kept = append(kept, p)
+			}
+		}
+		corpus = kept
+	}
 	ins := corruptionLexemes()
 	edits := func(lex []string, emit func([]string)) {
 		n := len(lex)
